@@ -197,12 +197,39 @@ def plan(tier, seed):
     jobs.append(("refcheck", seed, 100))
     for ch in range(8):
         jobs.append(("windows", ch, 8, 400))
+    jobs.append(("optwire", seed, 300))
     return jobs
 
 
 def run_job(job):
     env.quiet()
-    return {"bams": job_bams, "refcheck": job_refcheck, "windows": job_windows}[job[0]](job)
+    return {"bams": job_bams, "refcheck": job_refcheck, "windows": job_windows, "optwire": job_optwire}[job[0]](job)
+
+
+def job_optwire(job):
+    """the MAPQ threshold and the duplicate / QC-fail / supplementary flags typed on the command line reach the program
+    object of every program (the `bams` job then decides what those attributes do)"""
+    from .. import optwire, stddata
+    from mchap.application import arguments as A
+
+    r = Result()
+    payload = {"kind": "job", "job": job}
+    D = stddata.Data(env.scratch_dir("c06o"))
+    hv = D.save_vcf(stddata.run(D.assemble_args(bed=D.bed_subset(["L1"], "w.bed"))), "o.vcf")
+    env.quiet()
+    mods = stddata.modules()
+    for prog, arglist, argv in (("assemble", A.ASSEMBLE_MCMC_PARSER_ARGUMENTS, D.assemble_args()), ("call", A.CALL_MCMC_PARSER_ARGUMENTS, D.call_args("call", hv)),
+                                ("call-exact", A.CALL_EXACT_PARSER_ARGUMENTS, D.call_args("call-exact", hv)),
+                                ("call-pedigree", A.CALL_PEDIGREE_MCMC_PARSER_ARGUMENTS, D.call_args("call-pedigree", hv, extra=D.pedigree_files()))):
+        optwire.check(r, payload, mods[prog].program, argv, arglist, prog, only=("--mapping-quality",))
+        optwire.check_flags(r, payload, mods[prog].program, argv, arglist, prog)
+        for q in (0, 1, 20, 60):
+            obj = mods[prog].program.cli(argv + ["--mapping-quality", str(q)])
+            r.evaluations += 1
+            if int(obj.mapping_quality) != q:
+                r.violation("option-mapq|%s" % prog, "--mapping-quality %d gives a program with mapping_quality %r" % (q, obj.mapping_quality), payload)
+    r.sample({"options": ["--mapping-quality", "boolean read filters"], "programs": 4})
+    return r
 
 
 def job_bams(job):
